@@ -338,8 +338,6 @@ c09!(c09_search_inv_k6, E::NearestGoodDayFajrIshaInvalid, 6, 9);
 c09!(c09_search_all_k6, E::NearestGoodDayAllPrayersAlways, 6, 9);
 c09!(c09_search_inv_k12, E::NearestGoodDayFajrIshaInvalid, 12, 15);
 c09!(c09_search_all_k12, E::NearestGoodDayAllPrayersAlways, 12, 15);
-c09!(c09_search_inv_k40, E::NearestGoodDayFajrIshaInvalid, 40, 43);
-c09!(c09_search_all_k40, E::NearestGoodDayAllPrayersAlways, 40, 43);
 
 // =====================================================================================
 // C10 — nearest-latitude recomputation: what is handed to get_hours and what is copied back
